@@ -143,6 +143,13 @@ pub fn range_event(id: u64, src: &str, oh: &Oh, ctx: &Ctx, from: NaiveDateTime, 
             continue;
         }
 
+        // the day jumps the iterator really made on this window (hook counters; complete below 64 long jumps):
+        // the trace specification checks each one against the hint contract of machine M3 (diagnostic)
+        let _ = opening_hours::verif::take_stats();
+        let _ = guarded(|| oh.iter_range(from, eff_to).count());
+        let st = opening_hours::verif::take_stats();
+        ev["jumps"] = json!(st.long_jumps.iter().map(|(a, b)| [daynum(*a), daynum(*b)]).collect::<Vec<_>>());
+        ev["jumps_complete"] = json!(st.long_jumps.len() < 64);
         ev["from"] = instant(from);
         ev["to"] = instant(eff_to);
         ev["requested_to"] = instant(to);
